@@ -10,40 +10,37 @@ use muxide::verif_hooks::mp4::verif as mp4h;
 
 fn finalize_body<const NV: usize, const NA: usize>(fast_start: bool, audio_track: bool, moov_len: usize) {
     let vpts: [u64; NV] = kani::any();
-    // key flags are concrete (pattern K N K): a symbolic flag would make the sync table a
-    // vector of symbolic length, which CBMC cannot handle (see DESIGN.md); symbolic flags are
-    // decided on the from_samples kernel (c01_sync_table_*).
+    // key flags are concrete (pattern K N K): a symbolic flag would make the sync table a vector
+    // of symbolic length, which CBMC cannot handle (DESIGN.md); symbolic flags are decided on the
+    // from_samples kernel (c01_sync_table_*).
     let vkey: [bool; NV] = core::array::from_fn(|i| i % 2 == 0);
     let apts: [u64; NA] = kani::any();
     // ticks below 2^63 (beyond that `pts as i64 - dts as i64` overflows: a C12/C16 matter)
+    let mut reordered = false;
     let mut i = 0;
     while i < NV {
         kani::assume(vpts[i] < (1 << 63));
-        i += 1;
-    }
-    // known finding: with an audio track, reordered video gets permuted chunk offsets
-    let mut reordered = false;
-    let mut i = 0;
-    while i + 1 < NV {
-        reordered |= vpts[i] > vpts[i + 1];
+        if i > 0 {
+            reordered |= vpts[i - 1] > vpts[i];
+        }
         i += 1;
     }
     if NV >= 3 {
         reordered |= vpts[0] > vpts[2];
     }
+    // known finding: with an audio track, reordered video gets permuted chunk offsets
     if crate::known::KF_C01_REORDERED_VIDEO_WITH_AUDIO && audio_track {
         kani::assume(!reordered);
     }
-    reset_moov_stub(moov_len);
+    let c = carrier(moov_len);
     let mut w = build_writer::<NV, NA>(RecSink::new(), vpts, vkey, apts, audio_track);
-    let r = w.finalize(&VIDEO, None, fast_start);
+    let r = w.finalize(&c.track, None, fast_start);
     assert!(r.is_ok(), "finalize succeeds with a fault-free sink");
     let sink = mp4h::sink(&w);
-    let calls = moov_calls();
-    assert!(calls == if fast_start { 2 } else { 1 }, "moov built once (standard) or measured + built (fast start)");
-    let mc = moov_call(calls - 1);
+    assert!(c.calls.get() == if fast_start { 2 } else { 1 }, "moov built once (standard) or measured + built (fast start)");
+    let mc = final_call(&c);
     let v = mc.video;
-    // ---- layout of the file --------------------------------------------------
+    // ---- layout of the file: where the bytes really went -------------------------------
     let payload_total = total_payload::<NV, NA>();
     let mdat_start = if fast_start { FTYP_LEN + moov_len as u64 } else { FTYP_LEN };
     let have_mdat = NV + NA > 0 || fast_start || audio_track;
@@ -56,14 +53,13 @@ fn finalize_body<const NV: usize, const NA: usize>(fast_start: bool, audio_track
         assert!(moov_pos + moov_len as u64 == sink.total, "standard: moov is the last thing written");
     }
     if have_mdat {
-        // mdat header = 4 size bytes then 'mdat'
         assert!(sink.count_tag(b'm') == 1, "one mdat type tag");
         assert!(sink.pos_of(b'm') == Some(mdat_start + 4), "mdat header directly at the expected position");
     } else {
         assert!(sink.count_tag(b'm') == 0);
     }
     let data_start = mdat_start + 8;
-    // ---- per-sample resolution -------------------------------------------------
+    // ---- per-sample resolution: table entry -> the place the payload was written -----------
     assert!(v.n == NV, "one table row per video sample");
     let single_chunk = !audio_track;
     if single_chunk {
@@ -82,7 +78,6 @@ fn finalize_body<const NV: usize, const NA: usize>(fast_start: bool, audio_track
         run += VSIZE[i] as u64;
         i += 1;
     }
-    // sync table = submitted key flags
     let mut kf = 0usize;
     let mut i = 0;
     while i < NV {
@@ -93,8 +88,9 @@ fn finalize_body<const NV: usize, const NA: usize>(fast_start: bool, audio_track
         i += 1;
     }
     assert!(kf == v.n_keyframes, "no extra sync entries");
+    assert!(mc.audio_present == audio_track, "audio tables are handed over iff an audio track is configured");
     if audio_track {
-        let a = mc.audio.unwrap();
+        let a = mc.audio;
         assert!(a.n == NA && a.n_chunks == NA);
         let mut j = 0;
         while j < NA {
@@ -104,10 +100,7 @@ fn finalize_body<const NV: usize, const NA: usize>(fast_start: bool, audio_track
             j += 1;
         }
         assert!(a.n_keyframes == 0, "audio has no sync table");
-    } else {
-        assert!(mc.audio.is_none());
     }
-    // tiling: everything between data_start and the end of mdat is sample payload
     let end = if fast_start { sink.total } else { moov_pos };
     assert!(end == data_start + payload_total || !have_mdat, "sample ranges cover the mdat payload exactly");
     kani::cover!(reordered, "reordered video reached");
@@ -127,44 +120,44 @@ macro_rules! fin_h {
     };
 }
 
-//@ prop=C01 tier=quick cost=60 fns="Mp4Writer::finalize,finalize_standard,SampleTables::from_samples" bound="video-only, 2 samples (2+3 bytes), all u64 pts, key flags K N K; moov builder stubbed (recording)" unwind=6 stubs="build_moov_box(recording)" covers_optional="x"
-fin_h!(c01_std_v2, 2, 0, false, false, 4, 6);
-//@ prop=C01 tier=quick cost=60 fns="Mp4Writer::finalize,finalize_fast_start,SampleTables::from_samples" bound="video-only fast start, 2 samples, all u64 pts, key flags K N K" unwind=6 stubs="build_moov_box(recording)"
-fin_h!(c01_fast_v2, 2, 0, true, false, 4, 6);
-//@ prop=C01 tier=quick cost=200 fns="Mp4Writer::finalize,finalize_standard,compute_interleave_schedule,SampleTables::from_samples" bound="2 video + 1 audio samples, all u64 pts (video reordering excluded while KF-C01 is listed), all key flags" unwind=6 stubs="build_moov_box(recording)" timeout=900
-fin_h!(c01_std_v2a1, 2, 1, false, true, 4, 6);
-//@ prop=C01 tier=quick cost=300 fns="Mp4Writer::finalize,finalize_fast_start,compute_interleave_schedule,SampleTables::from_samples" bound="fast start, 2 video + 1 audio samples, all u64 pts, key flags K N K" unwind=6 stubs="build_moov_box(recording)" timeout=900
-fin_h!(c01_fast_v2a1, 2, 1, true, true, 4, 6);
-//@ prop=C01 tier=quick cost=120 fns="Mp4Writer::finalize,finalize_standard,compute_interleave_schedule" bound="1 video + 1 audio sample" unwind=6 stubs="build_moov_box(recording)" covers_optional="reordered|in-order"
-fin_h!(c01_std_v1a1, 1, 1, false, true, 4, 6);
-//@ prop=C01 tier=thorough cost=120 fns="Mp4Writer::finalize,finalize_fast_start,compute_interleave_schedule" bound="fast start, 1 video + 1 audio sample" unwind=6 stubs="build_moov_box(recording)" covers_optional="reordered|in-order"
-fin_h!(c01_fast_v1a1, 1, 1, true, true, 4, 6);
-//@ prop=C01 tier=thorough cost=100 fns="Mp4Writer::finalize,finalize_standard" bound="audio configured but no audio samples, 2 video samples" unwind=6 stubs="build_moov_box(recording)"
-fin_h!(c01_std_v2a0, 2, 0, false, true, 4, 6);
-//@ prop=C01 tier=thorough cost=1000 fns="Mp4Writer::finalize,finalize_standard,compute_interleave_schedule" bound="3 video + 1 audio samples" unwind=6 stubs="build_moov_box(recording)" timeout=3000 mem=30
-fin_h!(c01_std_v3a1, 3, 1, false, true, 4, 7);
-//@ prop=C01 tier=thorough cost=1000 fns="Mp4Writer::finalize,finalize_standard,compute_interleave_schedule" bound="2 video + 2 audio samples" unwind=6 stubs="build_moov_box(recording)" timeout=3000 mem=30
-fin_h!(c01_std_v2a2, 2, 2, false, true, 4, 7);
-//@ prop=C01 tier=thorough cost=1000 fns="Mp4Writer::finalize,finalize_fast_start,compute_interleave_schedule" bound="fast start, 3 video + 1 audio samples" unwind=6 stubs="build_moov_box(recording)" timeout=3000 mem=30
-fin_h!(c01_fast_v3a1, 3, 1, true, true, 4, 7);
-//@ prop=C01 tier=thorough cost=60 fns="Mp4Writer::finalize,finalize_standard" bound="no samples at all (video-only)" unwind=6 stubs="build_moov_box(recording)" covers_optional="*"
-fin_h!(c01_std_v0, 0, 0, false, false, 4, 6);
+//@ prop=C01 tier=quick cost=60 fns="Mp4Writer::finalize,finalize_standard,SampleTables::from_samples" bound="video-only, 2 samples (2+3 bytes), all u64 pts, key flags K N K; moov builder replaced by an encoding stand-in" unwind=6 stubs="build_moov_box(recording stand-in)" covers_optional="x"
+fin_h!(c01_std_v2, 2, 0, false, false, 8, 6);
+//@ prop=C01 tier=quick cost=60 fns="Mp4Writer::finalize,finalize_fast_start,SampleTables::from_samples" bound="video-only fast start, 2 samples, all u64 pts, key flags K N K" unwind=6 stubs="build_moov_box(recording stand-in)"
+fin_h!(c01_fast_v2, 2, 0, true, false, 8, 6);
+//@ prop=C01 tier=quick cost=200 fns="Mp4Writer::finalize,finalize_standard,compute_interleave_schedule,SampleTables::from_samples" bound="2 video + 1 audio samples, all u64 pts (video reordering excluded while KF-C01 is listed), all key flags" unwind=6 stubs="build_moov_box(recording stand-in)" timeout=2400
+fin_h!(c01_std_v2a1, 2, 1, false, true, 8, 6);
+//@ prop=C01 tier=quick cost=300 fns="Mp4Writer::finalize,finalize_fast_start,compute_interleave_schedule,SampleTables::from_samples" bound="fast start, 2 video + 1 audio samples, all u64 pts, key flags K N K" unwind=6 stubs="build_moov_box(recording stand-in)" timeout=2400
+fin_h!(c01_fast_v2a1, 2, 1, true, true, 8, 6);
+//@ prop=C01 tier=quick cost=120 fns="Mp4Writer::finalize,finalize_standard,compute_interleave_schedule" bound="1 video + 1 audio sample" unwind=6 stubs="build_moov_box(recording stand-in)" covers_optional="reordered|in-order"
+fin_h!(c01_std_v1a1, 1, 1, false, true, 8, 6);
+//@ prop=C01 tier=thorough cost=120 fns="Mp4Writer::finalize,finalize_fast_start,compute_interleave_schedule" bound="fast start, 1 video + 1 audio sample" unwind=6 stubs="build_moov_box(recording stand-in)" covers_optional="reordered|in-order"
+fin_h!(c01_fast_v1a1, 1, 1, true, true, 8, 6);
+//@ prop=C01 tier=thorough cost=100 fns="Mp4Writer::finalize,finalize_standard" bound="audio configured but no audio samples, 2 video samples" unwind=6 stubs="build_moov_box(recording stand-in)"
+fin_h!(c01_std_v2a0, 2, 0, false, true, 8, 6);
+//@ prop=C01 tier=thorough cost=1000 fns="Mp4Writer::finalize,finalize_standard,compute_interleave_schedule" bound="3 video + 1 audio samples" unwind=6 stubs="build_moov_box(recording stand-in)" timeout=3000 mem=30
+fin_h!(c01_std_v3a1, 3, 1, false, true, 8, 7);
+//@ prop=C01 tier=thorough cost=1000 fns="Mp4Writer::finalize,finalize_standard,compute_interleave_schedule" bound="2 video + 2 audio samples" unwind=6 stubs="build_moov_box(recording stand-in)" timeout=3000 mem=30
+fin_h!(c01_std_v2a2, 2, 2, false, true, 8, 7);
+//@ prop=C01 tier=thorough cost=1000 fns="Mp4Writer::finalize,finalize_fast_start,compute_interleave_schedule" bound="fast start, 3 video + 1 audio samples" unwind=6 stubs="build_moov_box(recording stand-in)" timeout=3000 mem=30
+fin_h!(c01_fast_v3a1, 3, 1, true, true, 8, 7);
+//@ prop=C01 tier=thorough cost=60 fns="Mp4Writer::finalize,finalize_standard" bound="no samples at all (video-only)" unwind=6 stubs="build_moov_box(recording stand-in)" covers_optional="*"
+fin_h!(c01_std_v0, 0, 0, false, false, 8, 6);
 
-// witness for the reordered-video finding: inside the region the property must fail
-//@ prop=C01 tier=quick cost=200 fns="Mp4Writer::finalize,finalize_standard,compute_interleave_schedule" bound="2 video + 1 audio samples, video pts strictly decreasing" unwind=6 stubs="build_moov_box(recording)" expect=fail kf=KF-C01-reordered-video-with-audio timeout=900
+// regression harness for the (fixed) reordered-video defect: strictly decreasing video PTS with audio
+//@ prop=C01 tier=quick cost=200 fns="Mp4Writer::finalize,finalize_standard,compute_interleave_schedule" bound="2 video + 1 audio samples, video pts strictly decreasing" unwind=6 stubs="build_moov_box(recording stand-in)" timeout=1500
 #[kani::proof]
 #[kani::unwind(6)]
 #[kani::stub(muxide::invariant_ppt::__assert_invariant_impl, crate::stubs::assert_invariant_stub)]
 #[kani::stub(muxide::muxer::mp4::build_moov_box, muxide::verif_hooks::mp4::verif::moov_recording_stub)]
-pub fn c01_w_reordered_video_with_audio() {
+pub fn c01_reordered_video_with_audio() {
     let vpts: [u64; 2] = kani::any();
     kani::assume(vpts[0] > vpts[1] && vpts[0] < (1 << 63));
     let apts: [u64; 1] = kani::any();
-    reset_moov_stub(4);
+    let c = carrier(8);
     let mut w = build_writer::<2, 1>(RecSink::new(), vpts, [true, false], apts, true);
-    let r = w.finalize(&VIDEO, None, false);
+    let r = w.finalize(&c.track, None, false);
     assert!(r.is_ok());
-    let v = moov_call(0).video;
+    let v = final_call(&c).video;
     let sink = mp4h::sink(&w);
     assert!(Some(v.chunk_offsets[0] as u64) == sink.pos_of(vtag(0)), "video sample 0 offset points at its own payload");
     core::mem::forget((w, r));
